@@ -104,4 +104,36 @@ def oracleSigC08 (rate : Nat) (spans : List (Nat × Nat)) (evs : List SigEv) : O
         | _ => none
       | _ => none)
 
+/-- C02 at signal level: one transmission with header presence mask `hm`, trailer mask `tm`
+    (bit 4 = first burst); `lone`: no other burst is heard in the history window before the
+    trailer. -/
+def oracleSigC02 (h : List Byte) (hm tm : Nat) (lone : Bool) (msgs : List Out) : Option String :=
+  let pop (m : Nat) : Nat := m % 2 + m / 2 % 2 + m / 4 % 2
+  let soms := msgs.filter (fun o => match o.msg with | .som .. => true | _ => false)
+  let eoms := msgs.filter (fun o => o.msg == .eom)
+  if pop hm ≥ 2 ∧ soms.length != 1 then
+    some s!"two header bursts were sent but {soms.length} StartOfMessage were reported"
+  else if pop hm ≥ 2 ∧ !(soms.all (fun o => match o.msg with | .som t _ _ => t == h | _ => false)) then
+    some "StartOfMessage text differs from the transmitted header"
+  else if pop hm ≤ 1 ∧ soms.length != 0 then some "a header sent in only one burst was reported"
+  else if pop tm ≥ 2 ∧ eoms.length != 1 then
+    let diag := if eoms.length == 0 ∧ soms.length == 1 ∧ pop hm == 2 ∧ tm == 6
+      then " [cause: StartOfMessage still pending at the second trailer burst; its deadline was re-armed by the first trailer burst]" else ""
+    some s!"two trailer bursts were sent but {eoms.length} EndOfMessage were reported{diag}"
+  else if pop tm == 1 ∧ lone ∧ eoms.length != 1 then
+    some s!"a single trailer burst with nothing heard before it must give one EndOfMessage, got {eoms.length}"
+  else if pop tm == 0 ∧ eoms.length != 0 then some "EndOfMessage reported although no trailer burst was sent"
+  else
+    match soms, eoms with
+    | [s], [e] => if s.t ≤ e.t then none else some "EndOfMessage reported before StartOfMessage"
+    | _, _ => none
+
+/-- C05 for a single transmission: at most one StartOfMessage and at most one EndOfMessage -/
+def oracleSigC05One (msgs : List Out) : Option String :=
+  let soms := msgs.filter (fun o => match o.msg with | .som .. => true | _ => false)
+  let eoms := msgs.filter (fun o => o.msg == .eom)
+  if soms.length > 1 then some s!"one transmission produced {soms.length} StartOfMessage"
+  else if eoms.length > 1 then some s!"one transmission produced {eoms.length} EndOfMessage"
+  else none
+
 end SameVerif.Spec
